@@ -56,6 +56,9 @@ pub struct HScript {
     /// fails (when the trigger says so) before the k-th explicit append (k = appends.len() means after all of them)
     pub fail_at: Option<usize>,
     pub invalid: Option<Invalid>,
+    /// the script appends its own `<name>.unregister` when the trigger asks for it
+    #[serde(default)]
+    pub self_stop: bool,
 }
 
 #[derive(Serialize, Deserialize, Clone, Debug, PartialEq)]
@@ -69,6 +72,8 @@ pub enum GScript {
     Empty,
     /// duplex echo
     Echo,
+    /// duplex echo of the first k inputs, then the pipeline ends (the generator stops and is restarted)
+    EchoFirst(usize),
     MissingHash,
 }
 
@@ -89,7 +94,7 @@ pub enum SOp {
     Ctx,
     RegHandler { name: usize, ctx: usize, script: HScript, watched: bool },
     Unreg { name: usize, ctx: usize },
-    Trigger { ctx: usize, fail: bool, eph: bool },
+    Trigger { ctx: usize, fail: bool, eph: bool, #[serde(default)] selfstop: bool },
     Burst { n: usize, ctx: usize, other_ctx: usize },
     Foreign { ctx: usize },
     SpawnGen { name: usize, ctx: usize, gen: GScript, duplex: bool },
@@ -169,6 +174,9 @@ pub fn handler_script(name: &str, s: &HScript, other_ctx: &str, after_id: Option
     if s.fail_at == Some(s.appends.len()) {
         out.push_str(&format!("    if $fail {{ error make {{msg: \"boom{}\"}} }}\n", s.appends.len()));
     }
+    if s.self_stop {
+        out.push_str(&format!("    if ($frame.meta?.selfstop? | default false) {{ \"bye\" | .append {}.unregister }}\n", name));
+    }
     out.push_str(match s.ret {
         Ret::Nothing => "    null\n",
         Ret::Record => "    {n: $env.n, saw: $frame.id, topic: $frame.topic}\n",
@@ -190,6 +198,7 @@ pub fn gen_expr(g: &GScript) -> Option<String> {
         GScript::Stream(k) => Some(format!("[{}] | each {{|x| $x}}", (0..*k).map(|i| format!("\"s{}\"", i)).collect::<Vec<_>>().join(" "))),
         GScript::Empty => Some("[] | each {|x| $x}".to_string()),
         GScript::Echo => Some("each {|x| $\"hi: ($x)\"}".to_string()),
+        GScript::EchoFirst(k) => Some(format!("each {{|x| $\"hi: ($x)\"}} | first {}", k)),
         GScript::MissingHash => None,
     }
 }
@@ -562,11 +571,21 @@ impl Run {
                 }
                 self.quiesce(chooser, vec![])?;
             }
-            SOp::Trigger { ctx, fail, eph } => {
+            SOp::Trigger { ctx, fail, eph, selfstop } => {
                 let c = self.ctx(*ctx);
+                if *selfstop {
+                    let keys: Vec<(Scru128Id, String)> = self.active.keys().filter(|(cc, _)| *cc == c).cloned().collect();
+                    for k in keys {
+                        let id = self.active[&k];
+                        if self.instances.iter().any(|x| x.id == id && x.script.self_stop && !(*fail && x.script.fail_at.is_some())) {
+                            self.active.remove(&k);
+                            self.w.probe("handler:self-unregister");
+                        }
+                    }
+                }
                 let f = self.op_append(
                     Frame::builder(format!("trig.{}", i), c)
-                        .meta(serde_json::json!({"fail": fail, "op": i}))
+                        .meta(serde_json::json!({"fail": fail, "op": i, "selfstop": selfstop}))
                         .maybe_ttl(if *eph { Some(TTL::Ephemeral) } else { None })
                         .build(),
                 )?;
@@ -900,6 +919,10 @@ impl Run {
                 for (k, (_, ttl, _)) in inst.script.appends.iter().enumerate() {
                     let t = ttl.as_ref().and_then(|x| xs::store::parse_ttl(x).ok());
                     want.push((format!("{}.x{}", name, k), t, format!("e{}", k).into_bytes(), false));
+                }
+                let selfstop = inst.script.self_stop && trig.meta.as_ref().and_then(|m| m.get("selfstop")).and_then(|v| v.as_bool()).unwrap_or(false);
+                if selfstop {
+                    want.push((format!("{}.unregister", name), None, b"bye".to_vec(), false));
                 }
                 if inst.script.ret != Ret::Nothing {
                     let t = inst.script.ret_ttl.as_ref().and_then(|x| xs::store::parse_ttl(x).ok());
@@ -1269,7 +1292,36 @@ impl Run {
                 if stopped {
                     i += 1;
                 }
-                if g.gen == GScript::Echo {
+                if let GScript::EchoFirst(k) = g.gen {
+                    // inputs of this lifecycle: the sends appended while it was running (after its
+                    // start, before its stop), the first k of them
+                    let start_pos = log.iter().position(|f| f.id == life[i - 1 - got.len() - if stopped { 1 } else { 0 }].id).unwrap_or(0);
+                    let stop_pos = if stopped { log.iter().position(|f| f.id == life[i - 1].id).unwrap_or(log.len()) } else { log.len() };
+                    let mut expect: Vec<String> = Vec::new();
+                    for (id, n, c, text) in &self.sends {
+                        if *n == g.name && *c == g.ctx {
+                            if let Some(p) = log.iter().position(|f| f.id == *id) {
+                                if p > start_pos && p < stop_pos && expect.len() < k {
+                                    expect.push(format!("hi: {}", text));
+                                }
+                            }
+                        }
+                    }
+                    let foreign: Vec<String> = self.sends.iter().filter(|(_, n, c, _)| *n == g.name && *c != g.ctx).map(|(_, _, _, t)| format!("hi: {}", t)).collect();
+                    if got.iter().any(|e| foreign.contains(e)) {
+                        // sends of another context were fed (not judged): skip the exact comparison
+                    } else if got != expect {
+                        return violation(
+                            "gen/duplex",
+                            format!("{}: the lifecycle started at log position {} echoed [{}] but the sends appended while it was running were [{}]", desc, start_pos, got.join(","), expect.join(",")),
+                        );
+                    } else if !expect.is_empty() {
+                        self.w.probe("gen:duplex-checked");
+                        if lifecycles >= 1 {
+                            self.w.probe("gen:duplex-second-lifecycle");
+                        }
+                    }
+                } else if g.gen == GScript::Echo {
                     echoed.extend(got.clone());
                     if stopped {
                         return violation("gen/sequence", format!("{}: a duplex generator stopped although its input never ended", desc));
@@ -1287,7 +1339,9 @@ impl Run {
                 }
                 lifecycles += 1;
             }
-            if g.gen != GScript::Echo {
+            if matches!(g.gen, GScript::EchoFirst(_)) {
+                // checked per lifecycle above
+            } else if g.gen != GScript::Echo {
                 // after a stop the generator is started again (the respawn timer is 1 s)
                 let first_stop_pos = log.iter().position(|f| f.topic == format!("{}.stop", g.name) && Self::meta_str(f, "source_id").as_deref() == Some(&sid));
                 if let Some(sp) = first_stop_pos {
@@ -1370,6 +1424,12 @@ impl Run {
             let completes = mine.iter().filter(|f| f.topic == format!("{}.complete", call.name)).count();
             let errors = mine.iter().filter(|f| f.topic == format!("{}.error", call.name)).count();
             let sides = mine.iter().filter(|f| f.topic == format!("{}.side", call.name)).count();
+            if mine.is_empty() && self.restart_positions.last().map(|p| log.iter().position(|f| f.id == call.id).map(|cp| cp >= *p).unwrap_or(false)).unwrap_or(false) {
+                return violation(
+                    "restart/command-lost",
+                    format!("{}: the latest valid definition {} was in force before the restart but the call made after it got no answer at all", desc, def_id),
+                );
+            }
             if completes + errors != 1 {
                 return violation(
                     "cmd/terminal-count",
@@ -1512,6 +1572,7 @@ fn gen_hscript(rng: &mut Rng, prop: &str) -> HScript {
         suffix: if rng.chance(25) { Some(rng.pick(&[".done", ".result"]).to_string()) } else { None },
         ret_ttl: if rng.chance(25) { Some(rng.pick(&["head:1", "head:3", "ephemeral", "time:60000"]).to_string()) } else { None },
         fail_at,
+        self_stop: rng.chance(if prop == "C16" || prop == "C14" { 30 } else { 10 }),
         invalid: if rng.chance(if prop == "C16" { 18 } else { 5 }) {
             Some(match rng.below(4) {
                 0 => Invalid::ParseError,
@@ -1549,13 +1610,14 @@ pub fn generate(seed: u64, prop: &str, thorough: bool) -> Plan {
                 0 => SOp::SpawnGen {
                     name: rng.below(2),
                     ctx: rng.below(nctx + 1),
-                    gen: match rng.weighted(&[20, 15, 25, 10, 20, 10]) {
+                    gen: match rng.weighted(&[20, 15, 25, 10, 14, 10, 12]) {
                         0 => GScript::Single(rng.pick(&["hello", "x", ""]).to_string()),
                         1 => GScript::ListValue(rng.range(1, 3)),
                         2 => GScript::Stream(rng.range(1, 4)),
                         3 => GScript::Empty,
                         4 => GScript::Echo,
-                        _ => GScript::MissingHash,
+                        5 => GScript::MissingHash,
+                        _ => GScript::EchoFirst(rng.range(1, 2)),
                     },
                     duplex: false,
                 },
@@ -1589,18 +1651,30 @@ pub fn generate(seed: u64, prop: &str, thorough: bool) -> Plan {
                 3 => SOp::Call { name: rng.below(2), ctx: rng.below(nctx + 1), arg: rng.below(10) },
                 4 => SOp::CallBurst { name: rng.below(2), ctx: rng.below(nctx + 1), n: rng.range(2, 4) },
                 5 => SOp::Tick { ms: 1000 },
-                6 => SOp::Trigger { ctx: rng.below(nctx + 1), fail: rng.chance(15), eph: false },
+                6 => SOp::Trigger { ctx: rng.below(nctx + 1), fail: rng.chance(15), eph: false, selfstop: rng.chance(8) },
                 7 => SOp::RegHandler { name: rng.below(2), ctx: rng.below(nctx + 1), script: gen_hscript(&mut rng, "C17"), watched: false },
                 9 => SOp::Unreg { name: rng.below(2), ctx: rng.below(nctx + 1) },
                 _ => SOp::Foreign { ctx: rng.below(nctx + 1) },
             };
             let op = match op {
                 SOp::SpawnGen { name, ctx, gen: GScript::Echo, .. } => SOp::SpawnGen { name, ctx, gen: GScript::Echo, duplex: true },
+                SOp::SpawnGen { name, ctx, gen: GScript::EchoFirst(k), .. } => SOp::SpawnGen { name, ctx, gen: GScript::EchoFirst(k), duplex: true },
                 o => o,
+            };
+            // after a valid definition, sometimes an invalid redefinition of the same command
+            let redefine = match &op {
+                SOp::Define { name, ctx, cmd } if !cmd.invalid && rng.chance(20) => Some(SOp::Define { name: *name, ctx: *ctx, cmd: CScript { invalid: true, ..cmd.clone() } }),
+                _ => None,
             };
             let is_stop = matches!(op, SOp::Unreg { .. });
             ops.push(op);
+            if let Some(r) = redefine {
+                ops.push(r);
+            }
             let _ = is_stop;
+            if prop == "C19" && rng.chance(7) {
+                ops.push(SOp::Restart { crash: rng.chance(50) });
+            }
             if prop == "C17" && rng.chance(12) {
                 // crash right after a stop request / trigger / call: nothing has answered it yet
                 ops.push(SOp::CrashAfter { what: rng.below(3), name: rng.below(2), ctx: rng.below(nctx + 1) });
@@ -1639,7 +1713,7 @@ pub fn generate(seed: u64, prop: &str, thorough: bool) -> Plan {
                 SOp::RegHandler { name: rng.below(2), ctx: rng.below(nctx + 1), script, watched }
             }
             1 => SOp::Unreg { name: rng.below(2), ctx: rng.below(nctx + 1) },
-            2 => SOp::Trigger { ctx: rng.below(nctx + 1), fail: rng.chance(15), eph: rng.chance(10) },
+            2 => SOp::Trigger { ctx: rng.below(nctx + 1), fail: rng.chance(15), eph: rng.chance(10), selfstop: rng.chance(10) },
             3 => SOp::Burst { n: rng.range(2, 6), ctx: rng.below(nctx + 1), other_ctx: rng.below(nctx + 1) },
             4 => SOp::Foreign { ctx: rng.below(nctx + 1) },
             5 => SOp::Tick { ms: *rng.pick(&[50u64, 1000]) },
@@ -1649,7 +1723,7 @@ pub fn generate(seed: u64, prop: &str, thorough: bool) -> Plan {
     }
     // final probes: one trigger per context
     for c in 0..=nctx {
-        ops.push(SOp::Trigger { ctx: c, fail: false, eph: false });
+        ops.push(SOp::Trigger { ctx: c, fail: false, eph: false, selfstop: false });
     }
     let policy = match rng.weighted(&[40, 25, 20, 15]) {
         0 => "uniform",
